@@ -5,8 +5,18 @@ from fractions import Fraction as Fr
 import numpy as np
 
 PID = "C14"
-META = {"level": "proof", "technique": "TODO", "design_ref": "DESIGN.md §3 C14", "text": "TODO", "note": "TODO",
-        "assumptions": [], "trusted": []}
+META = {
+    "level": "proof",
+    "engine": "qsym-translator",
+    "technique": "Coq reflection proofs (vm_compute over exact Laurent-polynomial matrices + soundness into C) that the circuit templates emitted by the synthesis equal their closed forms for ALL angle values; kernel-checked soundness of a fixed-point interval checker which then bounds |circuit - U| <= 1e-7 inside Coq for circuits returned by the real implementation on exact Q(zeta_8) and Haar unitaries; direct 1e-9 float oracle on every entry point",
+    "design_ref": "DESIGN.md §3 C14",
+    "text": "Part A (universal in the angles, regenerated from /repo every run): PennyLane's own one_qubit_decomposition is executed for every rotation convention (ZYZ, XYX, XZX, ZXZ, rot; with and without global phase) with the numerical angle extraction replaced by FORMAL angles; Coq proves that the emitted operator list multiplies to the closed form the extraction formulas assume (RZ(omega)RY(theta)RZ(phi), its basis-changed variants C.M.C^dagger, RZ(phi)RX(theta)RZ(lam), times e^{i alpha}), the four basis-change relations quoted in the code, the 3-CNOT central circuit (_central_circuit + GlobalPhase(e) = matrix C1 of the docstring, formal a,b,d,e), the 2-CNOT kernel CNOT.(RZ x RX).CNOT = V, the constant V = E^dagger.SWAP.CNOT.E of the 1-CNOT case, and the multiplexer: decompose_select_pauli_rot (RZ/CNOT Gray-code circuit with basis changes, axes Z, Y, X, 1-2 controls quick / 1-3 thorough, angles = the real compute_theta run on formal angles) equals the block-diagonal diag(R(alpha_0), ...) in the wire layout used by multi_qubit_decomp_rule. Theorem template_identity_forall_angles turns each obligation into a statement for every real angle. Static theorems: the four two-qubit skeletons have exactly 0,1,2,3 CNOTs and no other two-wire operator, any skeleton accepted by the per-run check is one of them (hence <= 3 CNOTs); interval_check_sound: for ALL complex gate matrices and unitaries inside the given enclosures, a passed check means every entry of (circuit - U) has modulus <= 1e-7 (fixed point 2^-60, outward rounding; add/mul lemmas; exact rationals are enclosed by the model's own rounding). Part B (per instance): identity, Cliffords, Clifford+T words, local products, controlled gates, SWAP-like, diagonal, QFT, 0/1/2/3-CNOT classes and degenerate canonical gates (all exact over Q(zeta_8): Pythagorean rotations and multiples of pi/4), Haar-random unitaries, perturbations at distance 1e-12..1e-3 and 0.03..0.3 from the structured ones, near-degenerate one-qubit unitaries; 1-3 qubits (4 thorough). Entry points: one_qubit_decomposition (5 conventions x global phase on/off), two_qubit_decomposition, multi_qubit_decomposition, QubitUnitary.decomposition()/compute_decomposition, the seven registered QubitUnitary rules, qp.transforms.decompose with the graph enabled (gate sets forcing each convention) and disabled. Every result: qp.matrix of the circuit AND an independent textbook-formula product vs U at 1e-9 (up to phase only for return_global_phase=False), CNOT count, skeleton/gate set checked inside Coq (check_skel), and for a sample the circuit is multiplied with interval arithmetic inside Coq against the EXACT U (check_dist); a sample of the cos/sin enclosures is re-proved with the Interval tactic.",
+    "note": "NOT proved: the numerical angle extraction (arctan2/angle), KAK/eigen-decompositions, CNOT-class detection, cosine-sine decomposition - validated per instance only. Template obligations for 2-CNOT kernel and rot/theta=0 are constructed from the emission code by hand (the interleaved numerics cannot run on formal angles); the multiplexer gate ORDER comes from a numeric run of the real code and the angles from the real compute_theta on formal angles (matched by value). The outer local factors A,B,C,D of the two-qubit templates are arbitrary matrices returned as QubitUnitary: only checked per instance. Coq distance check: quick tier covers a stride sample (all n<=2 entry points by stride, 3-qubit one-level and a few fully decomposed circuits); enclosures of cos/sin come from mpmath interval arithmetic, re-proved by Interval only for a sample; the link float angle -> gate matrix (RZ = diag(e^{-it/2}, e^{it/2}) etc.) is the textbook definition, cross-checked against qp.matrix in float64. Finding keys (reported, not hidden): unitaries within ~1e-3 of a lower CNOT class are decomposed with error proportional to (and sometimes far larger than) that distance. Trusted: Coq kernel + stdlib real axioms, translator (qsym/qx/gradlib), mpmath, numpy.",
+    "assumptions": ["gate matrices of RZ, RY, RX, Rot, GlobalPhase, CNOT, SelectPauliRot are the textbook ones (cross-checked against qp.matrix per result)",
+                    "mpmath interval enclosures of cos/sin contain the true values (sample re-proved with the Interval tactic)",
+                    "tolerance 1e-9 (float oracle) / 1e-7 (Coq) stands for 'equal'"],
+    "trusted": ["harness/qsym.py, harness/qx.py, harness/gradlib.py (symbolic execution of PennyLane code for part A)", "mpmath.iv", "numpy float64 oracle"],
+}
 
 # ------------------------------------------------------------------ exact arithmetic in Q(zeta_8)
 # element = (a, b, c, d)  meaning a + b z + c z^2 + d z^3,  z = exp(i pi/4), z^4 = -1
@@ -438,7 +448,7 @@ def np_circuit(ops, n):
 
 
 # ------------------------------------------------------------------ rational enclosures (mpmath interval arithmetic)
-GRID = 72
+GRID = 60
 
 
 def _fr_mpf(t):
@@ -465,7 +475,10 @@ def enc_c(re, im):
 
 
 def enc_pt(z):
-    return ((Fr(z.real), Fr(z.real)), (Fr(z.imag), Fr(z.imag)))
+    return ("float", complex(z))
+
+
+TRIG = []        # (function, exact argument, enclosure) of every cos/sin enclosure handed to Coq for RZ/RY/RX/SelectPauliRot
 
 
 def enc_op(o):
@@ -478,6 +491,8 @@ def enc_op(o):
     def rot(a, kind):
         t = iv.mpf(a) / 2
         c, s = iv.cos(t), iv.sin(t)
+        TRIG.append(("cos", Fr(a) / 2, _ends(c)))
+        TRIG.append(("sin", Fr(a) / 2, _ends(s)))
         if kind == "Z":
             return [[enc_c(c, -s), Z], [Z, enc_c(c, s)]]
         if kind == "Y":
@@ -512,25 +527,54 @@ def enc_op(o):
     raise KeyError(nm)
 
 
-def gq_(q):
-    q = Fr(q)
-    return f"({q.numerator} # {q.denominator})" if q >= 0 else f"(({q.numerator}) # {q.denominator})"
+LIMB = 1 << 62
 
 
-def g_itv(p):
-    return f"({gq_(p[0])}, {gq_(p[1])})"
+def gzb(n):
+    """big integer as limbs of primitive 63-bit integers (cheap to parse for coqc)"""
+    n = int(n)
+    f = "zn" if n < 0 else "zp"
+    n = abs(n)
+    limbs = []
+    while True:
+        limbs.append(n % LIMB)
+        n //= LIMB
+        if not n:
+            break
+    return f"({f} [{'; '.join(map(str, limbs))}])"
+
+
+KGRID = 1 << GRID
+
+
+def g_fi(p):
+    return f"({gzb(p[0] * KGRID)}, {gzb(p[1] * KGRID)})"
+
+
+def g_float(x):
+    num, den = float(x).as_integer_ratio()
+    e = -(den.bit_length() - 1)
+    return f"{gzb(num)} ({e})%Z"
 
 
 def g_ci(e):
-    return f"({g_itv(e[0])}, {g_itv(e[1])})"
+    if e[0] == "float":
+        return f"(FP {g_float(e[1].real)} {g_float(e[1].imag)})"
+    (a, b), (c, d) = e
+    return "(G4 " + " ".join(gzb(x * KGRID) for x in (a, b, c, d)) + ")"
 
 
 def g_igate(w, M):
-    return "(" + glist(w, gnat) + ", " + glist(M, lambda r: glist(r, g_ci)) + ")"
+    return "(mkG " + glist(w, gnat) + " " + glist(M, lambda r: glist(r, g_ci)) + ")"
+
+
+def g_qz(q):
+    q = Fr(q)
+    return f"(QZ {gzb(q.numerator)} {gzb(q.denominator)})"
 
 
 def g_z8(x):
-    return "(" + ", ".join(gq_(v) for v in x) + ")"
+    return "(Z8 " + " ".join(g_qz(v) for v in x) + ")"
 
 
 def half_encl():
@@ -568,9 +612,8 @@ def g_entry(ep, n):
     return f"(EMulti {gnat(n)})"
 
 
-HDR = "From Coq Require Import List ZArith QArith Bool.\nFrom PLV Require Import Lin.Vec Num.SynthModel.\nImport ListNotations.\nOpen Scope Q_scope."
+HDR = "From Coq Require Import List ZArith Bool Uint63.\nFrom PLV Require Import Lin.Vec Num.SynthModel.\nImport ListNotations.\nOpen Scope uint63_scope."
 TOL = 1e-9
-B2 = Fr(1, 10 ** 14)
 
 
 def u_cols_exact(case):
@@ -673,7 +716,11 @@ def up_to_phase_err(M, U):
 def run(ctx):
     from concurrent.futures import ThreadPoolExecutor
     ctx.coq_props()
+    TRIG.clear()
     quick = ctx.tier == "quick"
+    tpool = ThreadPoolExecutor(max_workers=1)
+    t_tmpl0 = time.time()
+    tmpl_future = tpool.submit(run_templates, ctx)       # part A runs concurrently with part B
     cases = build_cases(ctx)
     if getattr(ctx, "replay", None):
         rp = ctx.replay.get("replay", {})
@@ -750,8 +797,12 @@ def run(ctx):
             skel_terms.append(f"({g_entry(ep, n)}, {g_skel(ops)}, {gnat(ncnot)})")
             skel_ref.append((c, r))
             # numeric tie inside Coq (sample)
-            heavy = sum(4 ** len(o["wires"]) for o in ops) * (1 << n)
-            if err <= TOL and (heavy < 40000 or len(dist_terms) % 3 == 0 or not quick) and heavy < 600000:
+            n3 = sum(1 for cc, _ in dist_ref if cc["n"] >= 3)
+            stats["results_n%d" % n] = stats.get("results_n%d" % n, 0) + 1
+            stride = {1: 6, 2: 3}.get(n, 1) if quick else 1
+            sel = (n <= 2 and stats["results_n%d" % n] % stride == 0) or (n == 3 and ep == "multi" and (n3 < 4 or not quick)) \
+                or (n == 3 and ep == "graph:all" and n3 < (5 if quick else 14))
+            if err <= TOL and sel:
                 try:
                     gates = [enc_op(o) for o in ops]
                 except KeyError:
@@ -759,7 +810,7 @@ def run(ctx):
                 if phase_free:
                     gates.append(enc_op({"name": "GlobalPhase", "wires": [], "params": [-ph]}))
                 cols = u_cols_exact(c)
-                dist_terms.append(f"({gnat(n)}, {glist(gates, lambda g: g_igate(*g))},\n {glist(cols, lambda col: glist(col, g_z8))}, {g_itv(h)}, {gq_(B2)})")
+                dist_terms.append(f"(DC {gnat(n)} {glist(gates, lambda g: g_igate(*g))}\n {glist(cols, lambda col: glist(col, g_z8))} {g_fi(h)})")
                 dist_ref.append((c, r))
     t1 = time.time()
     bad = ctx.coq_eval_cases("skel", HDR, skel_terms, "check_skel", chunk=400)
@@ -769,26 +820,73 @@ def run(ctx):
         ctx.violation(key, {"n": c["n"], "kind": c["kind"], "ep": r["ep"], "U": ser_c(c["Unp"]), "ops": r["ops"], "stream": c["stream"], "delta": c["delta"]},
                       what=f"{r['ep']}: the emitted circuit {[o['name'] for o in r['ops']]} is not an instance of the documented template / gate set / CNOT bound")
     t2 = time.time()
-    badd = ctx.coq_eval_cases("dist", HDR, dist_terms, "check_dist", chunk=12 if quick else 20, par=14)
+    badd = ctx.coq_eval_cases("dist", HDR, dist_terms, "check_dist", chunk=30, par=12)
     for i in badd:
         c, r = dist_ref[i]
         key = f"coq-distance:{r['ep']}:{c['kind'].split(':')[0]}:{case_hash(c)}"
         ctx.violation(key, {"n": c["n"], "kind": c["kind"], "ep": r["ep"], "U": ser_c(c["Unp"]), "ops": r["ops"], "stream": c["stream"], "delta": c["delta"]},
                       what=f"{r['ep']}: interval evaluation inside Coq cannot confirm |circuit - U| <= 1e-7")
+    # the cos/sin enclosures themselves (computed with mpmath) are re-proved inside Coq with the Interval tactic (sample)
+    ntrig = 80 if quick else 800
+    step = max(1, len(TRIG) // ntrig)
+    trig = TRIG[::step][:ntrig]
+    lem = [(f"encl_{i}", f"inF ({fn} (IZR ({a.numerator}) / IZR ({a.denominator}))) (({lo * KGRID})%Z, ({hi * KGRID})%Z)",
+            "unfold inF, KR. cbn [fst snd]. change K with 1152921504606846976%Z. interval with (i_prec 120).") for i, (fn, a, (lo, hi)) in enumerate(trig)]
+    tfail = ctx.coq_obligations("trig", TRIG_HDR, lem, chunk=40, par=4)
+    for name, detail in tfail:
+        ctx.broken_obligation("coq", "trig-enclosure:" + name, detail[-800:])
     t3 = time.time()
-    tmpl = run_templates(ctx)
+    tmpl = tmpl_future.result()
+    tpool.shutdown()
     ctx.coverage.update({
         "evaluations": stats["results"], "distinct_nontrivial": len({(case_hash(c), r["ep"]) for c, r in skel_ref if len(r["ops"]) > 1}),
         "rule": "one evaluation = one (unitary, entry point) synthesis; non-trivial = circuit with more than one operator",
         "input_distribution": {"by_stream": stats["by_stream"], "by_qubits": stats["by_n"],
                                "kinds": {k: sum(1 for c in cases if c["kind"].split(":")[0] == k) for k in sorted({c["kind"].split(":")[0] for c in cases})}},
         "two_qubit_entangler_histogram": stats["cnot_hist"], "max_error_outside_near_stream": {k: float("%.3g" % v) for k, v in stats["max_err"].items()},
-        "raised": stats["raised"], "finding_hits": stats["findings"], "coq_skeleton_cases": len(skel_terms), "coq_distance_cases": len(dist_terms),
+        "raised": stats["raised"], "finding_hits": stats["findings"], "coq_skeleton_cases": len(skel_terms), "coq_distance_cases": len(dist_terms), "trig_enclosures_total": len(TRIG), "trig_enclosures_reproved_with_interval": len(trig) - len(tfail),
         "templates": tmpl, "timing_s": {"impl": round(t_impl, 1), "coq_skel": round(t2 - t1, 1), "coq_dist": round(t3 - t2, 1), "templates": round(time.time() - t3, 1)},
     })
     for c, r in dist_ref[:2]:
         ctx.sample({"n": c["n"], "kind": c["kind"], "ep": r["ep"], "ops": [o["name"] for o in r["ops"]], "err": r.get("err")})
 
 
+TRIG_HDR = """From Coq Require Import Reals ZArith.
+From Interval Require Import Tactic.
+From PLV Require Import Num.SynthModel Num.SynthProofs.
+Open Scope R_scope.
+"""
+THDR = """From Coq Require Import List ZArith QArith Bool.
+From PLV Require Import Alg.Poly Lin.Vec Lin.PVec.
+Import ListNotations.
+Open Scope Q_scope.
+"""
+EXPECTED_TEMPLATES = ["one_%s_%s" % (r, g) for r in ("ZYZ", "XYX", "XZX", "ZXZ", "rot") for g in ("phase", "su2")] + \
+    ["one_rot_theta0", "basis_xyx_rx", "basis_xyx_ry", "basis_xzx_rx", "basis_xzx_rz", "two_central_3cnot", "two_kernel_2cnot", "two_const_1cnot"]
+
+
 def run_templates(ctx):
-    return {}
+    """part A: circuit templates with formal angles, proved equal to their closed forms for all angle values"""
+    sizes = [1, 2] if ctx.tier == "quick" else [1, 2, 3]
+    try:
+        out = ctx.run_impl("c14_impl.py", {"mode": "templates", "seed": ctx.seed, "mux_sizes": sizes}, timeout=1200)
+    except RuntimeError as e:
+        ctx.broken_obligation("tie", "templates", "template extraction with formal angles failed: " + str(e)[-1500:])
+        return {"error": str(e)[-300:]}
+    obl = out["obligations"]
+    names = [o["name"] for o in obl]
+    want = EXPECTED_TEMPLATES + [f"mux_{a}_{k}" for k in sizes for a in "ZYX"]
+    for w in want:
+        if w not in names:
+            ctx.broken_obligation("tie", "template:" + w, "template could no longer be extracted with formal angles")
+    failed = ctx.coq_obligations("tmpl", THDR, [(o["name"], o["stmt"], "vm_compute. reflexivity.") for o in obl], chunk=3, par=10)
+    by = {o["name"]: o for o in obl}
+    for name, detail in failed:
+        o = by.get(name.replace("_file", ""))
+        res = o["numeric_residual"] if o else None
+        ctx.violation("template:" + name, {"template": name, "how": o and o["how"], "numeric_residual_at_random_angles": res,
+                                           "no_longer_checks": None if (res or 0) > 1e-9 else f"generated lemma {name}", "coq": detail[-600:]},
+                      found_input=bool(res and res > 1e-9),
+                      what=f"circuit template {name} does not equal its closed form for all angles" + (f" (numeric residual {res:.2e} at random angles)" if res else ""))
+    return {"obligations": len(obl), "failed": [n for n, _ in failed], "names": names,
+            "max_numeric_residual": max([o["numeric_residual"] for o in obl] or [0])}
